@@ -112,9 +112,9 @@ inductive HookAct
 def HookAct.apply (a : HookAct) (_ : Obs) (st : ReqState) : ReqState :=
   match a with
   | .noop => st
-  | .setHeader k v => { st with headers := set st.headers k [v] }
+  | .setHeader k v => { st with headers := put st.headers k [v] }
   | .addCookie n v => { st with cookies := st.cookies ++ [(n, v)] }
-  | .setQuery k v => { st with query := set st.query k [v] }
+  | .setQuery k v => { st with query := put st.query k [v] }
   | .setBody b => { st with body := .bytes b }
 
 def decHook (s : String) : Option HookAct :=
